@@ -24,6 +24,8 @@ class Gen:
 		self.max_depth = max_depth
 		self.layout = layout
 		self.stats = {'op_levels': set(), 'block_depth': 0, 'clauses2': False, 'multiline': False, 'tab': False, 'empty_slots': 0}
+		self.exclude: set = set()     # generator flags of listed findings
+		self.class_compound = 0       # nesting depth of compound statements directly inside a class body
 
 	# ---- helpers ----------------------------------------------------------------------
 	def pick(self, seq):
@@ -352,7 +354,12 @@ class Gen:
 			s = self.simple(1, in_class)
 			if not s.startswith('#') and '\n' not in s:
 				return [f'{ind}{header}: {s}']
-		return [f'{ind}{header}:'] + self.block(depth - 1, level + 1, ind_unit, in_class, in_func)
+		compound = in_class and not in_func and not header.startswith(('class ', 'def '))
+		self.class_compound += 1 if compound else 0
+		try:
+			return [f'{ind}{header}:'] + self.block(depth - 1, level + 1, ind_unit, in_class, in_func)
+		finally:
+			self.class_compound -= 1 if compound else 0
 
 	def statement(self, depth: int, level: int, ind_unit: str, in_class: bool = False, in_func: bool = False) -> list[str]:
 		r = self.rnd
@@ -363,6 +370,8 @@ class Gen:
 		if c <= 2:
 			tparams = f'[{", ".join(dict.fromkeys(self.pick(["T", "K", "V"]) for _ in range(r.randint(1, 2))))}]' if self.chance(0.08) else ''
 			decos = self.decorators(ind, in_class)
+			if in_class and not in_func and self.class_compound > 0 and 'def-in-class-compound' in self.exclude:
+				decos = [d for d in decos if '@staticmethod' not in d]  # listed finding C02-K-def-in-class-compound
 			first = 'cls' if any('@classmethod' in d for d in decos[:1]) else 'self'
 			if self.friendly and in_class and any('@staticmethod' in d for d in decos):
 				decos = [d for d in decos if '@staticmethod' in d][:1] + [d for d in decos if '@staticmethod' not in d and '@classmethod' not in d and '@property' not in d]
@@ -395,6 +404,8 @@ class Gen:
 			return self.decorators(ind) + self.suite(f'class {self.pick(["A", "B", "Foo", "_Impl"])}{tparams}{paren}', depth, level, ind_unit, True, False)
 		if c == 7:
 			items = ', '.join(f'{self.expr(1, TERNARY)}{" as " + self.name() if self.chance(0.6) else ""}' for _ in range(r.randint(1, 2)))
+			if items.lstrip().startswith('('):
+				items = 'ctx' + items  # `with (a, b):` is the parenthesised with-item form in CPython >= 3.9 (outside G2): make it a call
 			return self.suite(f'with {items}', depth, level, ind_unit, in_class, in_func)
 		if c <= 9:
 			names = ', '.join(dict.fromkeys(self.name() for _ in range(r.randint(1, 2))))
@@ -428,8 +439,9 @@ class Gen:
 		return text + ('\n' if self.chance(0.8) else '')
 
 
-def gen_module(rnd, profile: str = 'mixed', max_depth: int = 4, layout: bool = True, friendly: bool = False) -> tuple[str, dict]:
+def gen_module(rnd, profile: str = 'mixed', max_depth: int = 4, layout: bool = True, friendly: bool = False, exclude: frozenset = frozenset()) -> tuple[str, dict]:
 	g = Gen(rnd, max_depth, layout, friendly)
+	g.exclude = set(exclude)
 	text = g.module(profile)
 	stats = dict(g.stats)
 	stats['op_levels'] = len(stats['op_levels'])
